@@ -9,8 +9,6 @@ sys.path.insert(0, str(VERIF))
 
 ALL = [f"C{i:02d}" for i in range(1, 21)]
 NA = {
-    "C11": "on-disk cache under file faults: the subject is Path.exists / ZANJ / zip I/O and byte-level truncation, all C and OS code "
-           "that a Python-level symbolic executor realises at once; nothing remains symbolic for a solver to decide (DESIGN.md section 5)",
     "C19": "uniformity of Wilson's output distribution is a statement about probabilities of outputs, not a satisfiability question over "
            "one symbolic execution; an SMT query cannot count or weigh executions and the walks are unbounded (DESIGN.md section 5)",
 }
